@@ -565,13 +565,13 @@ class FnEmit:
             s.extra_decl.append('  uint64_t %s[%d] __attribute__((aligned(%d))) IR2C_ZI;' % (an, max((sz * n + 7) // 8, 1), max(al, 8)))
             w('%s = (ptr)%s;' % (r, an))
         elif op == 'load':
-            if ins.atomic: s.yield_point()
+            if ins.atomic: s.yield_point(); w('IR2C_NULLCHK(%s);' % V(ins.p))
             ct = cx.cty(ins.ty); e = '(*(%s*)%s)' % (ct, V(ins.p))
             if cx.res(ins.ty).kind == 'int' and cx.res(ins.ty).bits == 1: e = '(%s & 1)' % e
             if ins.atomic and cx.o.threads: w('__CPROVER_atomic_begin(); %s = %s; __CPROVER_atomic_end();' % (r, e))
             else: w('%s = %s;' % (r, e))
         elif op == 'store':
-            if ins.atomic: s.yield_point()
+            if ins.atomic: s.yield_point(); w('IR2C_NULLCHK(%s);' % V(ins.p))
             t = ins.v.ty; ct = cx.cty(t)
             st = '*(%s*)%s = %s;' % (ct, V(ins.p), V(ins.v))
             if ins.atomic and cx.o.threads: w('__CPROVER_atomic_begin(); %s __CPROVER_atomic_end();' % st)
@@ -579,12 +579,12 @@ class FnEmit:
         elif op == 'fence':
             w('ir2c_fence();')
         elif op == 'cmpxchg':
-            s.yield_point()
+            s.yield_point(); w('IR2C_NULLCHK(%s);' % V(ins.p))
             ct = cx.cty(ins.cmp.ty)
             b, e = ('__CPROVER_atomic_begin(); ', ' __CPROVER_atomic_end();') if cx.o.threads else ('', '')
             w('%s%s.f0 = *(%s*)%s; %s.f1 = (u1)(%s.f0 == %s); if (%s.f1) *(%s*)%s = %s;%s' % (b, r, ct, V(ins.p), r, r, V(ins.cmp), r, ct, V(ins.p), V(ins.new), e))
         elif op == 'atomicrmw':
-            s.yield_point()
+            s.yield_point(); w('IR2C_NULLCHK(%s);' % V(ins.p))
             ct = cx.cty(ins.v.ty); pp = '(*(%s*)%s)' % (ct, V(ins.p)); v = V(ins.v)
             new = {'xchg': v, 'add': s.binop('add', ins.v.ty, r, v), 'sub': s.binop('sub', ins.v.ty, r, v),
                    'and': s.binop('and', ins.v.ty, r, v), 'or': s.binop('or', ins.v.ty, r, v), 'xor': s.binop('xor', ins.v.ty, r, v)}[ins.rmw]
@@ -749,6 +749,13 @@ static void ir2c_yield(uint32_t site) {
   if (ir2c_yield_count == ir2c_yield_at) { ir2c_in_yield = 1; ir2c_yield_site = site; verif_interfere(); ir2c_in_yield = 0; }
 }
 static inline void ir2c_fence(void) {}
+/* opt-in (IR2C_NULL_GUARD): an atomic access through a pointer derived from NULL (e.g. a moved-from read critical section whose lock pointer
+   was reset) is reported and the path ends there; without the cut symbolic execution wanders off through the invalid object */
+#if defined(IR2C_NULL_GUARD) && defined(__CPROVER__)
+#define IR2C_NULLCHK(p) do { __CPROVER_assert(__CPROVER_POINTER_OBJECT(p) != __CPROVER_POINTER_OBJECT((ptr)0), "dereference failure: atomic access through a null pointer"); __CPROVER_assume(__CPROVER_POINTER_OBJECT(p) != __CPROVER_POINTER_OBJECT((ptr)0)); } while (0)
+#else
+#define IR2C_NULLCHK(p) do { } while (0)
+#endif
 #ifdef IR2C_SPIN_BLOCKS
 /* own sequentialisation: the preempting thread must run to completion; if it has to wait for a lock held by the preempted thread the
    schedule "B completes here" does not exist (B would wait until A resumes, which is the schedule with a later preemption point or B after A).
@@ -856,8 +863,15 @@ static uint64_t pthread_self(void) { return 1; }
 #endif
 /* std::mutex: ghost owner flag kept in the first word of the pthread_mutex_t; single-threaded harnesses */
 uint64_t ir2c_mutex_held;
-static uint32_t pthread_mutex_lock(ptr m) { __CPROVER_assert(*(uint32_t*)m == 0, "mutex is not already held when locked (self-deadlock)"); *(uint32_t*)m = 1; ir2c_mutex_held++; return 0; }
-static uint32_t pthread_mutex_trylock(ptr m) { if (*(uint32_t*)m != 0) return 16; *(uint32_t*)m = 1; ir2c_mutex_held++; return 0; }
+uint64_t ir2c_mutex_foreign;   /* set by the harness: every mutex is currently held by ANOTHER thread.  lock() then waits (the run ends there, reached), trylock() reports EBUSY */
+static uint32_t pthread_mutex_lock(ptr m) {
+#ifdef __CPROVER__
+  if (ir2c_mutex_foreign) { __CPROVER_assert(0, "WITNESS end of harness reachable"); __CPROVER_assume(0); }
+#else
+  if (ir2c_mutex_foreign) { printf("WITNESS\nBLOCKED\n"); exit(0); }
+#endif
+  __CPROVER_assert(*(uint32_t*)m == 0, "mutex is not already held when locked (self-deadlock)"); *(uint32_t*)m = 1; ir2c_mutex_held++; return 0; }
+static uint32_t pthread_mutex_trylock(ptr m) { if (ir2c_mutex_foreign || *(uint32_t*)m != 0) return 16; *(uint32_t*)m = 1; ir2c_mutex_held++; return 0; }
 static uint32_t pthread_mutex_unlock(ptr m) { __CPROVER_assert(*(uint32_t*)m == 1, "mutex is held when unlocked"); *(uint32_t*)m = 0; ir2c_mutex_held--; return 0; }
 static void _ZSt20__throw_system_errori(uint32_t e) { ir2c_exc_obj = __cxa_allocate_exception(8); ir2c_exc_type = 5; ir2c_exc_pending = 1; }
 static void _ZNSt12length_errorC1EPKc(ptr t, ptr m) {}
